@@ -36,8 +36,12 @@ RFN = "WebSocketApp.run_forever.<locals>."
 T_CB = "assumed contract of user callbacks: may raise any Exception subclass / KeyboardInterrupt / SystemExit and may call app.close()"
 T_SEL = "assumed contract of selectors: select() returns a possibly empty ready list"
 T_THREAD = "assumed contracts of threading.Event/Thread: the ping thread ends once its stop event is set (join within 3 s)"
-BOUNDED_COMPOSITION = ("the bodies of run_forever (after its validation prefix) and of the closure setSock compose the closures proved here; "
-                       "that composition is covered only by a BOUNDED scenario harness (real WebSocketApp against a scripted loopback server), never counted as proved")
+BOUNDED_COMPOSITION = ("composition of the closures: the body of setSock and the whole of run_forever (reconnect loop, except / finally, return value) "
+                       "are verified against the contracts of the closures; in the quick tier the most expensive parts (see functions_thorough in "
+                       "contracts/registry.py: run_forever's case with the built-in reconnect loop beyond its entry state, and the setSock cases "
+                       "not listed for this property) are left to the thorough tier, and a BOUNDED scenario harness (real WebSocketApp against a "
+                       "scripted loopback server) runs in both tiers as a cross-check, never counted as proved")
+SETSOCK = PA + RFN + "setSock"
 COST.update({PA + RFN + "setSock": 100, PA + "WebSocketApp.run_forever": 100, PA + RFN + "read": 100, D_ + "Dispatcher.read": 80, D_ + "SSLDispatcher.read": 80,
              PA + RFN + "handleDisconnect": 60})
 COST.update({K + "WebSocket.close": 100, K + "WebSocket.recv_data_frame": 100, K + "WebSocket.recv": 40, A + "frame_buffer.recv_frame": 10, A + "ABNF.format": 5})
@@ -107,27 +111,31 @@ PROPS = {
         not_decided=["close() returns within its timeout (a wall-clock bound on a loop whose progress depends on the peer)"]),
     "C13": dict(
         functions=[PA + "WebSocketApp._callback", PA + RFN + "read", D_ + "Dispatcher.read", D_ + "SSLDispatcher.read",
-                   A + "frame_buffer.recv_frame", K + "WebSocket.recv_data_frame"],
+                   A + "frame_buffer.recv_frame", K + "WebSocket.recv_data_frame", SETSOCK + "@@reconnect=on,external"],
+        functions_thorough=[SETSOCK],
         lemmas=[], bounded=[appsim.bounded("C13")], trusted_base=[T_TRANSPORT, T_CB, T_SEL],
         assumptions=[BOUNDED_COMPOSITION + " (here: on_open / on_reconnect fire once per connection and before the dispatcher starts reading)"],
         not_decided=["the time at which a callback fires (only its mechanism, no over-read by the parser, is proved)"]),
     "C14": dict(
         functions=[PA + RFN + "teardown", PA + RFN + "read", PA + RFN + "handleDisconnect", PA + "WebSocketApp.run_forever",
                    PA + "WebSocketApp._get_close_args", PA + "WebSocketApp._stop_ping_thread", PA + "WebSocketApp._callback", K + "WebSocket.close"],
+        functions_thorough=[SETSOCK, D_ + "DispatcherBase.reconnect"],
         lemmas=[], bounded=[appsim.bounded("C14")], trusted_base=[T_TRANSPORT, T_CB, T_SEL, T_THREAD],
         assumptions=[BOUNDED_COMPOSITION + " (here: the try/except/finally of run_forever reaches teardown on every exit path; the return value)"],
         not_decided=["that run_forever returns (termination depends on the peer / select)", "close() issued from another thread at every line",
                      "the ping thread is gone beyond 'stop event set and joined with its 3 s bound'"]),
     "C15": dict(
         functions=[PA + RFN + "handleDisconnect", D_ + "DispatcherBase.reconnect", PA + "WebSocketApp._start_ping_thread",
-                   PA + "WebSocketApp._stop_ping_thread", K + "WebSocket.shutdown", PA + RFN + "read", PA + RFN + "teardown"],
+                   PA + "WebSocketApp._stop_ping_thread", K + "WebSocket.shutdown", PA + RFN + "read", PA + RFN + "teardown",
+                   SETSOCK + "@@reconnect=on"],
+        functions_thorough=[SETSOCK, PA + "WebSocketApp.run_forever"],
         lemmas=[], bounded=[appsim.bounded("C15")],
         trusted_base=[T_TRANSPORT, T_CB, T_SEL, T_THREAD, "external dispatcher (rel) methods read/timeout/signal/abort are assumed contracts",
                       "contract of setSock (one attempt; previous socket shut down first) is used by DispatcherBase.reconnect as an assumed contract"],
         assumptions=[BOUNDED_COMPOSITION + " (here: the reconnect loop of run_forever and the body of setSock)"],
         not_decided=["that an attempt eventually succeeds; the real length of the pause (time.sleep is assumed to sleep)"]),
     "C16": dict(
-        functions=[PA + "WebSocketApp.run_forever", PA + RFN + "check", PA + "WebSocketApp._send_ping", PA + "WebSocketApp._start_ping_thread",
+        functions=[PA + "WebSocketApp.run_forever@@reconnect=off,external", PA + RFN + "check", PA + "WebSocketApp._send_ping", PA + "WebSocketApp._start_ping_thread",
                    PA + "WebSocketApp._stop_ping_thread", D_ + "Dispatcher.read", D_ + "SSLDispatcher.read", PA + RFN + "read", K + "WebSocket.ping",
                    PA + RFN + "handleDisconnect", PA + RFN + "teardown"],
         lemmas=["lemma:timing"], bounded=[appsim.bounded("C16")],
